@@ -5,6 +5,7 @@ import (
 	"errors"
 	"fmt"
 	"net"
+	"strings"
 	"testing"
 	"time"
 
@@ -34,6 +35,7 @@ var c20Durs = []time.Duration{0, 200 * time.Millisecond, 800 * time.Millisecond,
 const c20Th = 500 * time.Millisecond
 
 type c20exec struct {
+	sys     *c20sys
 	who     string
 	dur     time.Duration
 	outcome int
@@ -46,8 +48,8 @@ type c20exec struct {
 var errScript = errors.New("scripted failure")
 
 func (s *c20exec) Exec(ctx context.Context, qCtx *query_context.Context) error {
-	s.started, s.startAt = true, vs.Elapsed()
-	defer func() { s.ended, s.endAt = true, vs.Elapsed() }()
+	s.started, s.startAt = true, vs.Elapsed()-s.sys.base
+	defer func() { s.ended, s.endAt = true, vs.Elapsed()-s.sys.base }()
 	if s.dur < 0 {
 		vs.Recv(ctx.Done())
 		return context.Cause(ctx)
@@ -78,6 +80,7 @@ func (s *c20exec) Exec(ctx context.Context, qCtx *query_context.Context) error {
 }
 
 type c20sys struct {
+	base           time.Duration // virtual time at which this call started
 	pd, po, sd, so int
 	standby        bool
 	cmode          int // 0 none, 1 deadline 300ms, 2 deadline 650ms, 3 deadline 2s, 4 cancelled by a concurrent thread
@@ -92,230 +95,278 @@ type c20sys struct {
 
 var c20Deadlines = []time.Duration{0, 300 * time.Millisecond, 650 * time.Millisecond, 2 * time.Second}
 
+// c20Call runs one fallback call with the parameters already chosen in s.
+func c20Call(s *c20sys) {
+	s.base = vs.Elapsed()
+	s.prim = &c20exec{sys: s, who: "primary", dur: c20Durs[s.pd], outcome: s.po}
+	s.sec = &c20exec{sys: s, who: "secondary", dur: c20Durs[s.sd], outcome: s.so}
+	f := &fallback{logger: zap.NewNop(), primary: s.prim, secondary: s.sec, fastFallbackDuration: c20Th, alwaysStandby: s.standby}
+	q := new(dns.Msg)
+	q.SetQuestion("example.", dns.TypeA)
+	qCtx := query_context.NewContext(q)
+	ctx := context.Background()
+	var cancel context.CancelFunc = func() {}
+	switch s.cmode {
+	case 1, 2, 3:
+		ctx, cancel = vs.WithTimeout(ctx, c20Deadlines[s.cmode])
+	case 4:
+		ctx, cancel = vs.WithCancel(ctx)
+		c := cancel
+		vs.GoNamed("canceller", func() {
+			s.cancelled, s.cancelAt = true, vs.Elapsed()-s.base
+			c()
+		})
+	}
+	s.err = f.Exec(ctx, qCtx)
+	s.retAt, s.returned = vs.Elapsed()-s.base, true
+	if r := qCtx.R(); r != nil && len(r.Answer) == 1 {
+		if a, ok := r.Answer[0].(*dns.A); ok {
+			if a.A.Equal(net.IPv4(1, 1, 1, 1)) {
+				s.who = "primary"
+			} else if a.A.Equal(net.IPv4(2, 2, 2, 2)) {
+				s.who = "secondary"
+			}
+		}
+	}
+	cancel()
+}
+
+func c20Choose(s *c20sys) {
+	s.pd, s.po = vs.Choose(len(c20Durs)), 0
+	if c20Durs[s.pd] >= 0 {
+		s.po = vs.Choose(3)
+	} else {
+		s.po = oError
+	}
+	s.sd = vs.Choose(len(c20Durs))
+	if c20Durs[s.sd] >= 0 {
+		s.so = vs.Choose(3)
+	} else {
+		s.so = oError
+	}
+	s.standby = vs.Choose(2) == 1
+	s.cmode = vs.Choose(5)
+}
+
 func c20Scenario(name string, p, t int) vr.Scenario {
 	var sys *c20sys
 	body := func() {
 		s := &c20sys{}
 		sys = s
-		s.pd, s.po = vs.Choose(len(c20Durs)), 0
-		if c20Durs[s.pd] >= 0 {
-			s.po = vs.Choose(3)
-		} else {
-			s.po = oError
-		}
-		s.sd = vs.Choose(len(c20Durs))
-		if c20Durs[s.sd] >= 0 {
-			s.so = vs.Choose(3)
-		} else {
-			s.so = oError
-		}
-		s.standby = vs.Choose(2) == 1
-		s.cmode = vs.Choose(5)
-		s.prim = &c20exec{who: "primary", dur: c20Durs[s.pd], outcome: s.po}
-		s.sec = &c20exec{who: "secondary", dur: c20Durs[s.sd], outcome: s.so}
-		f := &fallback{logger: zap.NewNop(), primary: s.prim, secondary: s.sec, fastFallbackDuration: c20Th, alwaysStandby: s.standby}
-		q := new(dns.Msg)
-		q.SetQuestion("example.", dns.TypeA)
-		qCtx := query_context.NewContext(q)
-		ctx := context.Background()
-		var cancel context.CancelFunc = func() {}
-		switch s.cmode {
-		case 1, 2, 3:
-			ctx, cancel = vs.WithTimeout(ctx, c20Deadlines[s.cmode])
-		case 4:
-			ctx, cancel = vs.WithCancel(ctx)
-			c := cancel
-			vs.GoNamed("canceller", func() {
-				s.cancelled, s.cancelAt = true, vs.Elapsed()
-				c()
-			})
-		}
-		s.err = f.Exec(ctx, qCtx)
-		s.retAt, s.returned = vs.Elapsed(), true
-		if r := qCtx.R(); r != nil && len(r.Answer) == 1 {
-			if a, ok := r.Answer[0].(*dns.A); ok {
-				if a.A.Equal(net.IPv4(1, 1, 1, 1)) {
-					s.who = "primary"
-				} else if a.A.Equal(net.IPv4(2, 2, 2, 2)) {
-					s.who = "secondary"
-				}
-			}
-		}
-		cancel()
+		c20Choose(s)
+		c20Call(s)
+	}
+	check := func(x *vs.Exec) (string, *vs.Violation) { return c20Judge(sys, x) }
+	return vr.Scenario{Name: name, P: p, T: t, Horizon: 30 * time.Second, Body: body, Check: check}
+}
+
+// c20TwoCalls: two sequential calls in one execution share the timer pool: the
+// first one is chosen so that its threshold timer fires without being read.
+func c20TwoCalls(name string, p int) vr.Scenario {
+	var a, b *c20sys
+	body := func() {
+		a, b = &c20sys{}, &c20sys{}
+		// first call: primary fails or answers early/late, secondary long or short
+		a.pd, a.po = vs.Choose(3), []int{oAnswer, oError}[vs.Choose(2)]
+		a.sd, a.so = []int{0, 2}[vs.Choose(2)], oAnswer
+		a.standby = vs.Choose(2) == 1
+		c20Call(a)
+		vs.Sleep(10 * time.Second) // every goroutine of the first call is done, its timer is back in the pool
+		b.pd, b.po = []int{1, 2}[vs.Choose(2)], oAnswer
+		b.sd, b.so = vs.Choose(2), oAnswer
+		b.standby = vs.Choose(2) == 1
+		c20Call(b)
 	}
 	check := func(x *vs.Exec) (string, *vs.Violation) {
-		s := sys
-		desc := fmt.Sprintf("primary{dur=%v outcome=%d} secondary{dur=%v outcome=%d} standby=%v ctxmode=%d -> err=%v answer-of=%q ret@%v secStarted=%v@%v",
-			c20Durs[s.pd], s.po, c20Durs[s.sd], s.so, s.standby, s.cmode, s.err, s.who, s.retAt, s.sec.started, s.sec.startAt)
-		key := fmt.Sprintf("P%d.%d/S%d.%d/sb%v/c%d=>%s", s.pd, s.po, s.sd, s.so, s.standby, s.cmode, c20Res(s))
-		V := func(oracle string, why string) (string, *vs.Violation) {
-			return key, &vs.Violation{Sig: "fallback/" + oracle, Desc: why + "\n" + desc}
+		k1, v := c20Judge(a, x)
+		if v != nil {
+			v.Sig = strings.Replace(v.Sig, "fallback/", "fallback-2calls/first/", 1)
+			return k1, v
 		}
-		if x.Panic != "" {
-			return V("panic", x.Panic)
+		if !a.returned {
+			return k1, nil
 		}
-		if !s.returned {
-			return V("no-return", fmt.Sprintf("Exec never returned (parked: %v)", x.Blocked))
+		k2, v := c20Judge(b, x)
+		if v != nil {
+			v.Sig = strings.Replace(v.Sig, "fallback/", "fallback-2calls/second/", 1)
+			v.Desc += "\n(second call of the execution; first call: " + k1 + ")"
 		}
-		if x.EarlyTimers > 0 {
-			return key, nil // timing clauses are only evaluated when timers fire at quiescence
-		}
-		// ---- reference model (virtual time) ----
-		const inf = time.Duration(1<<62 - 1)
-		ctxEnd := inf
-		switch s.cmode {
-		case 1, 2, 3:
-			ctxEnd = c20Deadlines[s.cmode]
-		case 4:
-			ctxEnd = 0 // the canceller is runnable from t=0 on, it always runs at t=0
-		}
-		subEnd := 5 * time.Second // makeDdlCtx: caller's deadline, else 5s
-		if s.cmode >= 1 && s.cmode <= 3 {
-			subEnd = ctxEnd
-		}
-		// primary completion
-		pT, pAns := c20Durs[s.pd], s.po == oAnswer
-		if pT < 0 || pT > subEnd {
-			pT, pAns = subEnd, false
-		} else if pT == subEnd && pAns {
-			return key, nil // tie between completion and sub-context deadline: unspecified
-		}
-		// secondary start and availability
-		sStart := time.Duration(0)
-		sRuns := true
-		if !s.standby {
-			switch {
-			case pAns && pT < c20Th:
-				sRuns = false
-			case pAns && pT == c20Th:
-				return key, nil
-			case !pAns && pT < c20Th:
-				sStart = pT
-			default:
-				sStart = c20Th
-			}
-		}
-		sT, sAns := inf, false
-		var sSubEnd time.Duration = sStart + 5*time.Second
-		if s.cmode >= 1 && s.cmode <= 3 {
-			sSubEnd = ctxEnd
-		}
-		if sRuns {
-			d := c20Durs[s.sd]
-			if d < 0 || sStart+d > sSubEnd {
-				sT, sAns = sSubEnd, false
-			} else {
-				if sStart+d == sSubEnd && s.so == oAnswer {
-					return key, nil
-				}
-				sT, sAns = sStart+d, s.so == oAnswer
-			}
-		}
-		// when may the secondary's answer be used: primary failed, or threshold passed
-		sAvail := inf
-		if sAns {
-			rel := c20Th
-			if !pAns && pT < rel {
-				rel = pT
-			}
-			if pAns && pT < c20Th {
-				sAvail = inf // discarded
-			} else if pAns && pT == c20Th {
-				return key, nil
-			} else {
-				sAvail = sT
-				if sAvail < rel {
-					sAvail = rel
-				}
-			}
-		}
-		pAvail := inf
-		if pAns {
-			pAvail = pT
-		}
-		// secondary must not be started early
-		if !s.standby && s.sec.started {
-			if !sRuns {
-				return V("secondary-started-although-primary-answered-in-time", "the secondary's Exec was entered")
-			}
-			if s.sec.startAt < sStart {
-				return V("secondary-started-early", fmt.Sprintf("secondary entered at %v, allowed from %v", s.sec.startAt, sStart))
-			}
-		}
-		first := pAvail
-		if sAvail < first {
-			first = sAvail
-		}
-		allowed := map[string]bool{}
-		var expAt time.Duration
+		return k1 + " ; " + k2, v
+	}
+	return vr.Scenario{Name: name, P: p, Horizon: time.Minute, Body: body, Check: check}
+}
+
+func c20Judge(s *c20sys, x *vs.Exec) (string, *vs.Violation) {
+
+	desc := fmt.Sprintf("primary{dur=%v outcome=%d} secondary{dur=%v outcome=%d} standby=%v ctxmode=%d -> err=%v answer-of=%q ret@%v secStarted=%v@%v",
+		c20Durs[s.pd], s.po, c20Durs[s.sd], s.so, s.standby, s.cmode, s.err, s.who, s.retAt, s.sec.started, s.sec.startAt)
+	key := fmt.Sprintf("P%d.%d/S%d.%d/sb%v/c%d=>%s", s.pd, s.po, s.sd, s.so, s.standby, s.cmode, c20Res(s))
+	V := func(oracle string, why string) (string, *vs.Violation) {
+		return key, &vs.Violation{Sig: "fallback/" + oracle, Desc: why + "\n" + desc}
+	}
+	if x.Panic != "" {
+		return V("panic", x.Panic)
+	}
+	if !s.returned {
+		return V("no-return", fmt.Sprintf("Exec never returned (parked: %v)", x.Blocked))
+	}
+	if x.EarlyTimers > 0 {
+		return key, nil // timing clauses are only evaluated when timers fire at quiescence
+	}
+	// ---- reference model (virtual time) ----
+	const inf = time.Duration(1<<62 - 1)
+	ctxEnd := inf
+	switch s.cmode {
+	case 1, 2, 3:
+		ctxEnd = c20Deadlines[s.cmode]
+	case 4:
+		ctxEnd = 0 // the canceller is runnable from t=0 on, it always runs at t=0
+	}
+	subEnd := 5 * time.Second // makeDdlCtx: caller's deadline, else 5s
+	if s.cmode >= 1 && s.cmode <= 3 {
+		subEnd = ctxEnd
+	}
+	// primary completion
+	pT, pAns := c20Durs[s.pd], s.po == oAnswer
+	if pT < 0 || pT > subEnd {
+		pT, pAns = subEnd, false
+	} else if pT == subEnd && pAns {
+		return key, nil // tie between completion and sub-context deadline: unspecified
+	}
+	// secondary start and availability
+	sStart := time.Duration(0)
+	sRuns := true
+	if !s.standby {
 		switch {
-		case first == inf:
-			// both fail: error when the later one has finished
-			end := pT
-			if sRuns && sT > end {
-				end = sT
-			}
-			if end < ctxEnd {
-				allowed["failed"], expAt = true, end
-			} else if end == ctxEnd {
-				allowed["failed"], allowed["ctx"], expAt = true, true, end
-			} else {
-				allowed["ctx"], expAt = true, ctxEnd
-			}
-		case first < ctxEnd:
-			if pAvail == first {
-				allowed["primary"] = true
-			}
-			if sAvail == first {
-				allowed["secondary"] = true
-			}
-			expAt = first
-		case first == ctxEnd:
-			allowed["ctx"] = true
-			if pAvail == first {
-				allowed["primary"] = true
-			}
-			if sAvail == first {
-				allowed["secondary"] = true
-			}
-			expAt = first
+		case pAns && pT < c20Th:
+			sRuns = false
+		case pAns && pT == c20Th:
+			return key, nil
+		case !pAns && pT < c20Th:
+			sStart = pT
 		default:
+			sStart = c20Th
+		}
+	}
+	sT, sAns := inf, false
+	var sSubEnd time.Duration = sStart + 5*time.Second
+	if s.cmode >= 1 && s.cmode <= 3 {
+		sSubEnd = ctxEnd
+	}
+	if sRuns {
+		d := c20Durs[s.sd]
+		if d < 0 || sStart+d > sSubEnd {
+			sT, sAns = sSubEnd, false
+		} else {
+			if sStart+d == sSubEnd && s.so == oAnswer {
+				return key, nil
+			}
+			sT, sAns = sStart+d, s.so == oAnswer
+		}
+	}
+	// when may the secondary's answer be used: primary failed, or threshold passed
+	sAvail := inf
+	if sAns {
+		rel := c20Th
+		if !pAns && pT < rel {
+			rel = pT
+		}
+		if pAns && pT < c20Th {
+			sAvail = inf // discarded
+		} else if pAns && pT == c20Th {
+			return key, nil
+		} else {
+			sAvail = sT
+			if sAvail < rel {
+				sAvail = rel
+			}
+		}
+	}
+	pAvail := inf
+	if pAns {
+		pAvail = pT
+	}
+	// secondary must not be started early
+	if !s.standby && s.sec.started {
+		if !sRuns {
+			return V("secondary-started-although-primary-answered-in-time", "the secondary's Exec was entered")
+		}
+		if s.sec.startAt < sStart {
+			return V("secondary-started-early", fmt.Sprintf("secondary entered at %v, allowed from %v", s.sec.startAt, sStart))
+		}
+	}
+	first := pAvail
+	if sAvail < first {
+		first = sAvail
+	}
+	allowed := map[string]bool{}
+	var expAt time.Duration
+	switch {
+	case first == inf:
+		// both fail: error when the later one has finished
+		end := pT
+		if sRuns && sT > end {
+			end = sT
+		}
+		if end < ctxEnd {
+			allowed["failed"], expAt = true, end
+		} else if end == ctxEnd {
+			allowed["failed"], allowed["ctx"], expAt = true, true, end
+		} else {
 			allowed["ctx"], expAt = true, ctxEnd
 		}
-		if s.cmode == 4 {
-			// cancellation races with everything that happens at t=0
-			allowed["ctx"] = true
-			if pAvail == 0 {
-				allowed["primary"] = true
-			}
-			if sAvail == 0 {
-				allowed["secondary"] = true
-			}
-			if first == inf && pT == 0 && (!sRuns || sT == 0) {
-				allowed["failed"] = true
-			}
+	case first < ctxEnd:
+		if pAvail == first {
+			allowed["primary"] = true
 		}
-		got := c20Res(s)
-		if !allowed[got] {
-			oracle := "wrong-result"
-			switch {
-			case got == "secondary" && pAns && pT < c20Th:
-				oracle = "secondary-answer-although-primary-answered-in-time"
-			case got == "failed":
-				oracle = "error-although-an-answer-was-available"
-			case got == "ctx":
-				oracle = "context-error-although-answer-in-time"
-			case got == "other-error":
-				oracle = "unexpected-error"
-			}
-			return V(oracle, fmt.Sprintf("result %q, the statement allows %v", got, keys(allowed)))
+		if sAvail == first {
+			allowed["secondary"] = true
 		}
-		if s.cmode != 4 && s.retAt != expAt {
-			return V("return-time", fmt.Sprintf("returned at %v, expected %v", s.retAt, expAt))
+		expAt = first
+	case first == ctxEnd:
+		allowed["ctx"] = true
+		if pAvail == first {
+			allowed["primary"] = true
 		}
-		return key, nil
+		if sAvail == first {
+			allowed["secondary"] = true
+		}
+		expAt = first
+	default:
+		allowed["ctx"], expAt = true, ctxEnd
 	}
-	return vr.Scenario{Name: name, P: p, T: t, Horizon: 30 * time.Second, Body: body, Check: check}
+	if s.cmode == 4 {
+		// cancellation races with everything that happens at t=0
+		allowed["ctx"] = true
+		if pAvail == 0 {
+			allowed["primary"] = true
+		}
+		if sAvail == 0 {
+			allowed["secondary"] = true
+		}
+		if first == inf && pT == 0 && (!sRuns || sT == 0) {
+			allowed["failed"] = true
+		}
+	}
+	got := c20Res(s)
+	if !allowed[got] {
+		oracle := "wrong-result"
+		switch {
+		case got == "secondary" && pAns && pT < c20Th:
+			oracle = "secondary-answer-although-primary-answered-in-time"
+		case got == "failed":
+			oracle = "error-although-an-answer-was-available"
+		case got == "ctx":
+			oracle = "context-error-although-answer-in-time"
+		case got == "other-error":
+			oracle = "unexpected-error"
+		}
+		return V(oracle, fmt.Sprintf("result %q, the statement allows %v", got, keys(allowed)))
+	}
+	if s.cmode != 4 && s.retAt != expAt {
+		return V("return-time", fmt.Sprintf("returned at %v, expected %v", s.retAt, expAt))
+	}
+	return key, nil
 }
 
 func keys(m map[string]bool) []string {
@@ -346,5 +397,5 @@ func TestVerifC20(t *testing.T) {
 	if e.Tier == "thorough" {
 		p, pt, tt = 4, 2, 1
 	}
-	vr.RunScenarios("C20", []vr.Scenario{c20Scenario("fallback", p, 0), c20Scenario("fallback-earlytimers", pt, tt)})
+	vr.RunScenarios("C20", []vr.Scenario{c20Scenario("fallback", p, 0), c20Scenario("fallback-earlytimers", pt, tt), c20TwoCalls("fallback-2calls", p-1)})
 }
